@@ -256,6 +256,10 @@ fn strings() -> Vec<(&'static str, Vec<&'static str>)> {
         ("5", vec![]),
         ("true", vec![]),
         ("F.a", vec!["str_is_field_name"]),
+        ("it's broken", vec!["str_has_single_quote"]),
+        ("a'b, c", vec!["str_has_single_quote", "str_has_comma"]),
+        ("[", vec!["str_has_bracket"]),
+        ("a], [b", vec!["str_has_bracket", "str_has_comma"]),
     ]
 }
 
@@ -292,6 +296,20 @@ fn atoms() -> Vec<Piece> {
         let mut piece = p(&format!("F.s == \"{}\"", s), &format!("Atom(F.s == Str({:?}))", s));
         piece.tags = tags.clone();
         piece.tags.push("string_in_condition");
+        v.push(piece);
+        // the same content as an element of an array literal (followed by another element)
+        let mut piece = p(&format!("F.s in [\"{}\", \"z\"]", s), &format!("Atom(F.s in Arr[Str({:?}),Str(\"z\")])", s));
+        piece.tags = tags.clone();
+        piece.tags.push("string_in_array");
+        v.push(piece);
+    }
+    // single-quoted strings (GRL_SYNTAX.md: String: "text", 'text')
+    for (text, content) in [("'plain'", "plain"), ("'say \"hi\"'", "say \"hi\""), ("'5\" pipe, steel'", "5\" pipe, steel"), ("'a && b'", "a && b")] {
+        let mut piece = p(&format!("F.s == {}", text), &format!("Atom(F.s == Str({:?}))", content));
+        piece.tags = vec!["single_quoted_string", "string_in_condition"];
+        v.push(piece);
+        let mut piece = p(&format!("F.s in [{}, \"ok\", 7]", text), &format!("Atom(F.s in Arr[Str({:?}),Str(\"ok\"),Int(7)])", content));
+        piece.tags = vec!["single_quoted_string", "string_in_array"];
         v.push(piece);
     }
     v
@@ -673,6 +691,7 @@ fn all_specs(tier: Tier) -> Vec<Spec> {
         out.push(with(&|s| { s.cond_text = nest.clone() }));
     }
     // 3. pairwise: every value of one dimension with every value of another (others default)
+    let pair_start = out.len();
     let nm = names();
     let als: Vec<Vec<Attr>> = attr_lists(1);
     for n in &nm {
@@ -711,6 +730,46 @@ fn all_specs(tier: Tier) -> Vec<Spec> {
     for b in &acts {
         for c in comments {
             out.push(with(&|s| { s.actions = vec![b.clone()]; s.comment = c }));
+        }
+    }
+    if !quick {
+        // thorough: the pairwise product under every layout ...
+        let pairs: Vec<Spec> = out[pair_start..].to_vec();
+        for l in [Layout::Spaces, Layout::Tabs, Layout::Compact] {
+            for sp in &pairs {
+                let mut s2 = sp.clone();
+                s2.layout = l;
+                out.push(s2);
+            }
+        }
+        // ... every ordered pair of atoms under && and ||
+        for (i, a) in atoms.iter().enumerate() {
+            for (j, b) in atoms.iter().enumerate() {
+                let pick = vec![a.clone(), b.clone()];
+                for c in [CT::And(Box::new(CT::Leaf(0)), Box::new(CT::Leaf(1))), CT::Or(Box::new(CT::Leaf(0)), Box::new(CT::Leaf(1)))] {
+                    let mut tags = vec![];
+                    c.tags(&pick, &mut tags);
+                    let _ = (i, j);
+                    out.push(with(&|s| { s.cond_text = c.text(&pick, false); s.cond_expect = c.expect(&pick); s.tags = tags.clone() }));
+                }
+            }
+        }
+        // ... and three-way products: condition x action x comment placement (x layout), name x condition x action,
+        // attribute x condition x action
+        for a in &atoms {
+            for b in &acts {
+                for c in comments {
+                    for l in layouts {
+                        out.push(with(&|s| { s.cond_text = a.text.clone(); s.cond_expect = a.expect.clone(); s.tags = a.tags.clone(); s.actions = vec![b.clone()]; s.comment = c; s.layout = l }));
+                    }
+                }
+                for n in &nm {
+                    out.push(with(&|s| { s.name = n.clone(); s.cond_text = a.text.clone(); s.cond_expect = a.expect.clone(); s.tags = a.tags.clone(); s.actions = vec![b.clone()] }));
+                }
+                for al in &als {
+                    out.push(with(&|s| { s.attrs = al.clone(); s.cond_text = a.text.clone(); s.cond_expect = a.expect.clone(); s.tags = a.tags.clone(); s.actions = vec![b.clone()] }));
+                }
+            }
         }
     }
     out
@@ -760,6 +819,8 @@ fn files(rep: &mut Report, nt: &mut BTreeSet<u64>) {
     pool.push(mk(&|s| { s.name = p("\"R6\"", "R6"); s.cond_text = atoms[9].text.clone(); s.cond_expect = atoms[9].expect.clone(); s.layout = Layout::Compact }));
     pool.push(mk(&|s| { s.name = p("\"R7\"", "R7"); s.attrs = vec![attr_variants()[2].clone()]; s.actions = vec![acts[7].clone(), acts[10].clone(), acts[12].clone()] }));
     pool.push(mk(&|s| { s.name = p("\"R8\"", "R8"); s.cond_text = "!(F.a == 1)".into(); s.cond_expect = "Not[Atom(F.a == Int(1))]".into() }));
+    pool.push(mk(&|s| { s.name = p("\"Lowest\"", "Lowest"); s.attrs = vec![attr_variants()[7].clone()] }));
+    pool.push(mk(&|s| { s.name = p("\"Highest\"", "Highest"); s.attrs = vec![attr_variants()[6].clone()] }));
     let seps = ["\n\n", "\n", " ", "\n// between rules\n", "", "\t", "\r\n", "/* between */", " // rule Ghost { when X.a == 1 then X.b = 2; }\n"];
     let mut seqs: Vec<Vec<usize>> = vec![vec![]];
     for i in 0..pool.len() {
@@ -793,6 +854,26 @@ fn files(rep: &mut Report, nt: &mut BTreeSet<u64>) {
                     let got: Vec<String> = rules.iter().map(nrule).collect();
                     if got != expect {
                         rep.violation(Violation { class: "file_result_differs".into(), detail: format!("{} rules expected, {} parsed\n--- text ---\n{}\n--- expected ---\n{}\n--- parsed ---\n{}", expect.len(), got.len(), text, expect.join("\n"), got.join("\n")), tags: vec!["file".into()], case });
+                        continue;
+                    }
+                    // the same text loaded through the knowledge base: the same rules, ordered by descending salience
+                    // (file order among equals)
+                    rep.count("evaluations", 1);
+                    let mut order: Vec<usize> = (0..rules.len()).collect();
+                    order.sort_by_key(|&i| std::cmp::Reverse(rules[i].salience));
+                    let want: Vec<String> = order.iter().map(|&i| got[i].clone()).collect();
+                    let kb = rust_rule_engine::engine::knowledge_base::KnowledgeBase::new("kb");
+                    let loaded = std::panic::catch_unwind(std::panic::AssertUnwindSafe(|| kb.add_rules_from_grl(&text)));
+                    let case = json!({"sub": "files", "text": text, "expected": expect, "via": "KnowledgeBase::add_rules_from_grl"});
+                    match loaded {
+                        Err(_) => rep.violation(Violation { class: "knowledge_base_load_panicked".into(), detail: format!("{}\n--- text ---\n{}", crate::explore::take_panic(), text), tags: vec!["file".into(), "knowledge_base".into()], case }),
+                        Ok(Err(e)) => rep.violation(Violation { class: "valid_file_rejected".into(), detail: format!("add_rules_from_grl: {:?}\n--- text ---\n{}", e, text), tags: vec!["file".into(), "knowledge_base".into()], case }),
+                        Ok(Ok(n)) => {
+                            let have: Vec<String> = kb.get_rules().iter().map(nrule).collect();
+                            if n != rules.len() || have != want {
+                                rep.violation(Violation { class: "knowledge_base_content_differs".into(), detail: format!("add_rules_from_grl returned {} for {} rule blocks; the knowledge base holds\n{}\n--- expected (descending salience, file order among equals) ---\n{}\n--- text ---\n{}", n, rules.len(), have.join("\n"), want.join("\n"), text), tags: vec!["file".into(), "knowledge_base".into()], case });
+                            }
+                        }
                     }
                 }
             }
@@ -832,7 +913,7 @@ pub fn run(opts: &Opts) -> Vec<Report> {
         }
         total.count("nontrivial", nt_all.len() as u64);
         total.sample(json!({"text": specs[specs.len() / 2].text(), "expected": specs[specs.len() / 2].expect()}));
-        total.bound = "every value of every dimension (names, attribute subsets x orders, salience over the i32 range, atoms incl. 28 string contents with GRL metacharacters, action forms, layouts, comment placements) on its own under 4 layouts, pairwise with every value of every other dimension, and all condition-tree shapes up to the leaf bound with minimal and full parentheses".into();
+        total.bound = "every value of every dimension (names, attribute subsets x orders, salience over the i32 range, atoms incl. 28 string contents with GRL metacharacters, action forms, layouts, comment placements) on its own under 4 layouts, pairwise with every value of every other dimension, and all condition-tree shapes up to the leaf bound with minimal and full parentheses".to_string() + if opts.tier == Tier::Thorough { "; thorough: the pairwise product under all 4 layouts, every ordered pair of atoms under && and ||, and the three-way products condition x action x comment x layout, name x condition x action, attribute x condition x action" } else { "" };
         total.wall_s = t0.elapsed().as_secs_f64();
         out.push(total);
     }
@@ -842,8 +923,8 @@ pub fn run(opts: &Opts) -> Vec<Report> {
         let mut nt = BTreeSet::new();
         files(&mut rep, &mut nt);
         rep.count("nontrivial", nt.len() as u64);
-        rep.sample(json!({"note": "files of 0..8 rules from an 8-rule pool: empty, singletons, all ordered pairs, prefixes of 8-chains x 9 separators"}));
-        rep.bound = "files of 0..8 rules from an 8-rule pool: the empty file, every singleton, every ordered pair, prefixes of 8-chains in 4 rotations, x 9 separators (blank line, newline, space, comment line, nothing, tab, CRLF, block comment, trailing comment containing a rule)".into();
+        rep.sample(json!({"note": "files of 0..8 rules from a 10-rule pool (incl. salience i32::MIN and i32::MAX), each also loaded through KnowledgeBase::add_rules_from_grl: empty, singletons, all ordered pairs, prefixes of 8-chains x 9 separators"}));
+        rep.bound = "files of 0..8 rules from a 10-rule pool (incl. salience i32::MIN and i32::MAX), each also loaded through KnowledgeBase::add_rules_from_grl: the empty file, every singleton, every ordered pair, prefixes of 8-chains in 4 rotations, x 9 separators (blank line, newline, space, comment line, nothing, tab, CRLF, block comment, trailing comment containing a rule)".into();
         rep.wall_s = t0.elapsed().as_secs_f64();
         out.push(rep);
     }
